@@ -58,6 +58,7 @@ type callResult struct {
 	FaultHit  bool
 	Intro     string
 	LoadW     map[string]*val.V
+	flavour   map[string]string
 	inObjs    map[string]tensor.Tensor
 	outObjs   map[string]tensor.Tensor
 	Skipped   bool
@@ -206,6 +207,60 @@ func (x *executor) wrapGetter(orig gonnx.OpGetter, ctxOf func() *callCtx) gonnx.
 	}
 }
 
+// makeTensor builds the tensor object a caller passes for value v in the given flavour. Every flavour has the
+// same logical value (element type, shape, elements); they differ in memory layout and header state.
+func makeTensor(v *val.V, flavour string) tensor.Tensor {
+	switch flavour {
+	case "lazyT":
+		if len(v.Shape) >= 2 && v.Bad == "" {
+			// store the transposed data under the reversed shape, then transpose lazily: logically v again
+			n := len(v.Shape)
+			rs := make([]int, n)
+			for i := range rs {
+				rs[i] = v.Shape[n-1-i]
+			}
+			tv := &val.V{DT: v.DT, Shape: rs, Bits: make([]uint64, len(v.Bits))}
+			idx := make([]int, n)
+			for lin := range v.Bits {
+				// idx = multi-index of lin in v.Shape; element goes to reversed multi-index in rs
+				rem := lin
+				for a := n - 1; a >= 0; a-- {
+					idx[a] = rem % v.Shape[a]
+					rem /= v.Shape[a]
+				}
+				pos := 0
+				for a := 0; a < n; a++ {
+					pos = pos*rs[a] + idx[n-1-a]
+				}
+				tv.Bits[pos] = v.Bits[lin]
+			}
+			t := tv.Tensor().(*tensor.Dense)
+			if err := t.T(); err == nil && val.Equal(val.Snap(t), v) {
+				return t
+			}
+		}
+	case "view":
+		if len(v.Shape) >= 1 && v.Shape[0] >= 1 && v.Bad == "" {
+			// the first rows of a tensor twice as long along axis 0
+			bs := append([]int{}, v.Shape...)
+			bs[0] *= 2
+			big := &val.V{DT: v.DT, Shape: bs, Bits: append(append([]uint64{}, v.Bits...), v.Bits...)}
+			bt := big.Tensor().(*tensor.Dense)
+			// (gorgonia drops a sliced axis of extent 1, so the flavour is only used when the view still has v's shape)
+			if sl, err := bt.Slice(rangeSlice{0, v.Shape[0]}); err == nil && val.Equal(val.Snap(sl), v) {
+				return sl
+			}
+		}
+	}
+	return v.Tensor()
+}
+
+type rangeSlice struct{ a, b int }
+
+func (r rangeSlice) Start() int { return r.a }
+func (r rangeSlice) End() int   { return r.b }
+func (r rangeSlice) Step() int  { return 1 }
+
 func snapAll(ts gonnx.Tensors) map[string]*val.V {
 	o := make(map[string]*val.V, len(ts))
 	for k, t := range ts {
@@ -274,6 +329,30 @@ func introspect(m *gonnx.Model) string {
 	return sb.String()
 }
 
+// scribble overwrites everything the accessors hand out: names, shape maps, dimension slices.
+func scribble(m *gonnx.Model) {
+	for _, names := range [][]string{m.InputNames(), m.OutputNames(), m.ParamNames()} {
+		for i := range names {
+			names[i] = "scribbled"
+		}
+	}
+	for _, shapes := range []onnx.Shapes{m.InputShapes(), m.OutputShapes()} {
+		for k, sh := range shapes {
+			for i := range sh {
+				sh[i] = onnx.Dim{IsDynamic: !sh[i].IsDynamic, Name: "scribbled", Size: 7777}
+			}
+			delete(shapes, k)
+		}
+		shapes["scribbled"] = onnx.Shape{{Size: 1}}
+	}
+	for _, k := range m.OutputNames() {
+		sh := m.OutputShape(k)
+		for i := range sh {
+			sh[i].Size = -5
+		}
+	}
+}
+
 // doCall executes call ci of task ti. It is the body of the simulated caller.
 func (x *executor) doCall(ti, ci int, ctx *callCtx) {
 	call := &x.c.World.Tasks[ti].Calls[ci]
@@ -306,10 +385,14 @@ func (x *executor) doCall(ti, ci int, ctx *callCtx) {
 	}
 	if call.Kind == KIntrospect {
 		res.Kind, res.Err = guardRun(func() error { res.Intro = introspect(lm.m); return nil })
+		if call.Scribble {
+			guardRun(func() error { scribble(lm.m); return nil })
+		}
 		return
 	}
 	// assemble the tensor objects handed to Run
 	in := gonnx.Tensors{}
+	var sameFlavour map[string]string
 	switch call.Kind {
 	case KSame:
 		ref := &x.results[ti][call.Ref]
@@ -320,12 +403,15 @@ func (x *executor) doCall(ti, ci int, ctx *callCtx) {
 		for k, t := range ref.inObjs {
 			in[k] = t
 		}
+		sameFlavour = ref.flavour
 	case KFeedback:
 		ref := &x.results[ti][call.Ref]
 		for k, v := range call.Inputs {
 			in[k] = v.Tensor()
 		}
-		if ref.outObjs != nil {
+		// (outputs of a call that was given tensors in an unusual memory layout may inherit that layout; the
+		// reference could not rebuild it from a snapshot, so such outputs are not fed back)
+		if ref.outObjs != nil && len(ref.flavour) == 0 {
 			// an output of the earlier call is passed wherever it has the element type and rank of the intended input
 			for _, on := range sortedKeys(ref.outObjs) {
 				ot := ref.outObjs[on]
@@ -353,6 +439,7 @@ func (x *executor) doCall(ti, ci int, ctx *callCtx) {
 			for k, t := range prev.inObjs {
 				in[k] = t
 			}
+			sameFlavour = prev.flavour
 			break
 		}
 		for k, v := range call.Inputs {
@@ -371,10 +458,14 @@ func (x *executor) doCall(ti, ci int, ctx *callCtx) {
 		}
 	default:
 		for k, v := range call.Inputs {
-			in[k] = v.Tensor()
+			in[k] = makeTensor(v, call.Flavour[k])
 		}
 	}
 	res.inObjs = in
+	res.flavour = call.Flavour
+	if sameFlavour != nil {
+		res.flavour = sameFlavour // the very objects of an earlier call: whatever state they were built in
+	}
 	res.InBefore = snapAll(in)
 	ctx.node, ctx.fault, ctx.fired, ctx.trace = 0, call.Fault, false, nil
 	ctx.attrib = x.attrib
@@ -569,8 +660,9 @@ type refCache struct {
 // refRequest / refReply: the wire format of `simcheck refcall`.
 type refRequest struct {
 	Bytes  []byte            `json:"bytes"`
-	Inputs map[string]*val.V `json:"inputs"`
-	Fault  *OpFault          `json:"fault,omitempty"`
+	Inputs  map[string]*val.V `json:"inputs"`
+	Flavour map[string]string `json:"flavour,omitempty"`
+	Fault   *OpFault          `json:"fault,omitempty"`
 }
 
 type refReply struct {
@@ -586,16 +678,16 @@ func RefCall(in io.Reader, out io.Writer) error {
 		return err
 	}
 	rc := &refCache{m: map[uint64]*refResult{}}
-	r := rc.fresh(&ModelSpec{Bytes: rq.Bytes}, rq.Inputs, rq.Fault, false)
+	r := rc.freshF(&ModelSpec{Bytes: rq.Bytes}, rq.Inputs, rq.Flavour, rq.Fault, false)
 	return json.NewEncoder(out).Encode(&refReply{Kind: r.Kind, Err: r.Err, Out: r.Out})
 }
 
-func pristineFresh(spec *ModelSpec, in map[string]*val.V, fault *OpFault) *refResult {
+func pristineFresh(spec *ModelSpec, in map[string]*val.V, flavour map[string]string, fault *OpFault) *refResult {
 	self, err := os.Executable()
 	if err != nil {
 		panic(err)
 	}
-	rq, _ := json.Marshal(&refRequest{Bytes: spec.Bytes, Inputs: in, Fault: fault})
+	rq, _ := json.Marshal(&refRequest{Bytes: spec.Bytes, Inputs: in, Flavour: flavour, Fault: fault})
 	cmd := exec.Command(self, "refcall")
 	cmd.Stdin = bytes.NewReader(rq)
 	var so, se bytes.Buffer
@@ -621,9 +713,17 @@ func hashInputs(h interface{ Write([]byte) (int, error) }, in map[string]*val.V)
 
 // fresh executes one Run alone on a freshly loaded Model with brand-new tensor objects holding `in`.
 func (rc *refCache) fresh(spec *ModelSpec, in map[string]*val.V, fault *OpFault, attrib bool) *refResult {
+	return rc.freshF(spec, in, nil, fault, attrib)
+}
+
+// freshF: as fresh, with the caller's tensor flavours (the reference call passes tensors of the same flavour).
+func (rc *refCache) freshF(spec *ModelSpec, in map[string]*val.V, flavour map[string]string, fault *OpFault, attrib bool) *refResult {
 	h := fnv.New64a()
 	h.Write(spec.Bytes)
 	hashInputs(h, in)
+	for _, k := range sortedKeys(flavour) {
+		h.Write([]byte(k + "=" + flavour[k] + ";"))
+	}
 	if fault != nil {
 		fmt.Fprintf(h, "|%d|%s|%s", fault.Node, fault.When, fault.Mode)
 	}
@@ -635,7 +735,7 @@ func (rc *refCache) fresh(spec *ModelSpec, in map[string]*val.V, fault *OpFault,
 		return r
 	}
 	if rc.pristine {
-		r := pristineFresh(spec, in, fault)
+		r := pristineFresh(spec, in, flavour, fault)
 		rc.m[key] = r
 		return r
 	}
@@ -652,7 +752,7 @@ func (rc *refCache) fresh(spec *ModelSpec, in map[string]*val.V, fault *OpFault,
 	m.GetOperator = ex.wrapGetter(m.GetOperator, func() *callCtx { return ctx })
 	tin := gonnx.Tensors{}
 	for name, v := range in {
-		tin[name] = v.Tensor()
+		tin[name] = makeTensor(v, flavour[name])
 	}
 	var out gonnx.Tensors
 	r.Kind, r.Err = guardRun(func() (err error) { out, err = m.Run(tin); return })
